@@ -547,7 +547,9 @@ int doReplay(const sim::Options& opt) {
 // Shrinks a crashing plan in the parent by re-executing candidates in fresh processes.
 Plan shrinkCrash(const sim::Options& opt, Plan p, const std::string& cls, int budget) {
     std::string tmp = sim::replayPath(opt, 0, "-shrink-tmp");
+    double shrinkUntil = sim::wallNow() + 150;   // replays of a plan that hangs or blocks cost minutes each: shrinking stops, the plan stays as it is
     auto crashes = [&](const Plan& cand) {
+        if (sim::wallNow() > shrinkUntil) return false;
         Json f = Json::object();
         f.set("engine_property", opt.property).set("plan", planToJson(cand));
         sim::writeFile(tmp, f.dump());
